@@ -32,7 +32,7 @@ fn fingerprint(g: &Graph<u32, u32>, weighted: bool, x: u32) -> String {
     let mut out = String::new();
     let canon_pairs = |r: Result<std::collections::HashMap<u32, std::collections::HashMap<u32, graphrs::algorithms::shortest_path::ShortestPathInfo<u32>>>, graphrs::Error>| -> String {
         match r {
-            Err(e) => format!("E{}", err_code(&e.kind)),
+            Err(e) => format!("E{}:{}", err_code(&e.kind), e.message),
             Ok(m) => {
                 let mut rows: Vec<String> = m.into_iter().map(|(s, row)| {
                     let mut cells: Vec<String> = row.into_iter().map(|(t, i)| { let mut ps = i.paths; ps.sort(); format!("{}:{}:{:?}", t, i.distance.to_bits(), ps) }).collect();
@@ -67,7 +67,7 @@ fn fingerprint(g: &Graph<u32, u32>, weighted: bool, x: u32) -> String {
     out.push_str(&inv.join(";"));
     let fmap = |r: Result<std::collections::HashMap<u32, f64>, graphrs::Error>| -> String {
         match r {
-            Err(e) => format!("E{}", err_code(&e.kind)),
+            Err(e) => format!("E{}:{}", err_code(&e.kind), e.message),
             Ok(m) => { let mut v: Vec<(u32, u64)> = m.into_iter().map(|(k, x)| (k, x.to_bits())).collect(); v.sort(); format!("{:?}", v) }
         }
     };
@@ -97,7 +97,12 @@ pub fn observe(c: &Case) -> String {
     let g_neg: Option<Graph<u32, u32>> = if c.weighted {
         let mut gc = c.g.clone();
         match gc.edges.iter().rposition(|e| e.2.is_some()) {
-            Some(i) => { gc.edges[i].2 = Some(-60); gc.build().ok() }
+            Some(i) => {
+                gc.edges[i].2 = Some(-60);
+                // a second negative edge elsewhere: different sources run into different contradictions
+                if let Some(j) = gc.edges.iter().position(|e| e.2.is_some()) { if j != i { gc.edges[j].2 = Some(-45); } }
+                gc.build().ok()
+            }
             None => None,
         }
     } else { None };
@@ -107,7 +112,7 @@ pub fn observe(c: &Case) -> String {
             let names: Vec<u32> = gn.get_all_node_names().into_iter().copied().collect();
             let mut with_absent = names.clone();
             with_absent.push(9999);
-            let cls = |r: Result<std::collections::HashMap<u32, std::collections::HashMap<u32, graphrs::algorithms::shortest_path::ShortestPathInfo<u32>>>, graphrs::Error>| match r { Ok(m) => format!("ok{}", m.len()), Err(e) => format!("E{}", err_code(&e.kind)) };
+            let cls = |r: Result<std::collections::HashMap<u32, std::collections::HashMap<u32, graphrs::algorithms::shortest_path::ShortestPathInfo<u32>>>, graphrs::Error>| match r { Ok(m) => format!("ok{}", m.len()), Err(e) => format!("E{}:{}", err_code(&e.kind), e.message) };
             fp.push_str(&format!("#neg:{}:{}:{}", cls(dijkstra::multi_source(gn, true, names, None, None, false, true)),
                 cls(dijkstra::multi_source(gn, true, with_absent, None, None, false, true)), cls(dijkstra::all_pairs(gn, true, None, None, false, true))));
         }
